@@ -98,7 +98,14 @@ def body_1d(case):
     times = np.asarray(product.times_grid(), dtype=float)
     nb = len(times) - 1
     wrow = [float(case["w"][i % 2]) * (1.0 + 0.37 * (i // 2)) for i in range(nb)]
-    cp = CouplingMarkovChain(model=model, method=method, grid=grid)
+    try:
+        cp = CouplingMarkovChain(model=model, method=method, grid=grid)
+    except ValueError as e:
+        # the table method's documented rejection of a probability vector without residual (every entry a multiple of
+        # 1/256: a symmetric law on two reachable states)
+        if case["method"] == "TABLE" and "array of 0s" in str(e):
+            return [Violation("REJECTED", "table method: vector with no residual")]
+        raise
     cp.initialisation(product)
     cp.pre_computation(1, product)
     pms = [_PM(cp.fine_process.deterministic_path)]
@@ -110,7 +117,12 @@ def body_1d(case):
 
     for level in range(1, case["levels"] + 1):
         coarse_grid = copy.deepcopy(cp.grid)
-        coarse = MarkovChainProcess(model=model, method=method, grid=coarse_grid)
+        try:
+            coarse = MarkovChainProcess(model=model, method=method, grid=coarse_grid)
+        except ValueError as e:
+            if case["method"] == "TABLE" and "array of 0s" in str(e):
+                return out + [Violation("REJECTED", "table method: vector with no residual")]
+            raise
         coarse.initialisation(product)
         r_c = np.array(create_q_vector(coarse.model.levy_triplet.nu, coarse_grid), dtype=float)
         lam_c = float(coarse.intensity_of_jumps)
@@ -119,7 +131,12 @@ def body_1d(case):
         o_c = coarse_grid.origin_coordinate.value
         ax_c = np.array(coarse_grid.axes[0], dtype=float)
 
-        cp.next_level(1, None if case.get("no_pm") else pms, product)
+        try:
+            cp.next_level(1, None if case.get("no_pm") else pms, product)
+        except ValueError as e:
+            if case["method"] == "TABLE" and "array of 0s" in str(e):
+                return out + [Violation("REJECTED", "table method: vector with no residual")]
+            raise
         g = cp.grid
         fine = cp.fine_process
         ax_f = np.array(g.axes[0], dtype=float)
